@@ -96,7 +96,7 @@ func init() {
 			pre.Name += "-preemit"
 			pre.Params["preemit"] = 1
 			pre.Bound = "a metric holding one tuple that has been enumerated once, then " + pre.Bound
-			return []JobDef{mk(1, 1, 3, 0), pre, mk(2, 1, 2, 0), mk(0, 1, 3, 0), mk(1, 1, 2, 3), mk(1, 1, 2, 2)}
+			return []JobDef{mk(1, 1, 3, 0), mk(1, 0, 4, 0), pre, mk(2, 1, 2, 0), mk(0, 1, 3, 0), mk(1, 1, 2, 3), mk(1, 1, 2, 2)}
 		},
 		Assumptions: append([]string{
 			"the oracle is an insertion-ordered association list written in the harness and executed by the same engine on the same symbols",
@@ -217,6 +217,18 @@ func init() {
 					exporterJob("HarnessC12HTTP", nm, 0, b+"; varz and graphite handlers; request cancelled before the export or at any write"),
 				}
 			}
+			withWriter := func(js []JobDef) []JobDef {
+				// the same exports with line processing arriving (queueing on
+				// the metric's write lock) at any one constructor call / write
+				var out []JobDef
+				for _, j := range js {
+					j.Name += "-writer"
+					j.Params = p("nmetrics", int(j.Params["nmetrics"]), "symlabels", int(j.Params["symlabels"]), "writer", 1)
+					j.Bound += "; a line-processing goroutine queues on the metric's write lock at any one of these points"
+					out = append(out, j)
+				}
+				return out
+			}
 			if tier == "thorough" {
 				// one metric with up to 3 label sets, and two metrics with up
 				// to 1 label set each (two metrics x 2 label sets is ~10^8
@@ -228,11 +240,11 @@ func init() {
 				for _, j := range jobs(2) {
 					out = append(out, withMaxLV(j, 1))
 				}
-				return out
+				return append(out, withWriter(jobs(1))...)
 			}
-			return jobs(1)
+			return append(jobs(1), withWriter(jobs(1))...)
 		},
-		Outside: []string{"the real net.Conn / HTTP server", "JSON export (no per-metric lock is taken there)", "more metrics / label sets than the bound (in particular two metrics with two label sets each)"}})
+		Outside: []string{"the real net.Conn / HTTP server", "more than one concurrent line-processing goroutine, and schedules other than 'queued at one export point, runs when the lock is released'", "JSON export (no per-metric lock is taken there)", "more metrics / label sets than the bound (in particular two metrics with two label sets each)"}})
 	register(&CheckDef{ID: "C13", Level: "model_checking", Only: []string{"C13."}, Assumptions: as,
 		Jobs: func(tier string) []JobDef {
 			if tier == "thorough" {
